@@ -92,6 +92,8 @@ type Svc struct {
 	dead     bool          // every request fails at once (dead service)
 	killed   chan struct{} // closed at teardown
 	NoPark   bool          // answer without parking (cadence scenario)
+	Quiet    bool          // free-running mode: no parks, no kernel calls
+	MaxHang  time.Duration // >0: a hanging request fails after this long (transport timeout)
 	nonce    string
 }
 
@@ -260,6 +262,9 @@ var errUnavailable = errors.New("sim: service unavailable")
 
 func (v *Svc) request(ctx context.Context, name string, cond bool, old uint32) (*api.SecretValue, error) {
 	w := v.w
+	if v.Quiet {
+		return v.quietRequest(ctx, name, cond, old)
+	}
 	task := w.S.CurTask()
 	if task.InRead {
 		w.S.Fail(w.Prop+".read-blocks", fmt.Sprintf("a handle read issued a request to the service for %q", name))
@@ -343,10 +348,18 @@ func (v *Svc) request(ctx context.Context, name string, cond bool, old uint32) (
 		return finish(nil, errUnavailable)
 	case OutHang:
 		w.S.Fault("svc-hang")
+		var tmo <-chan time.Time
+		if v.MaxHang > 0 {
+			tm := time.NewTimer(v.MaxHang)
+			defer tm.Stop()
+			tmo = tm.C
+		}
 		select {
 		case <-ctx.Done():
 			return finish(nil, ctx.Err())
 		case <-v.killed:
+			return finish(nil, errUnavailable)
+		case <-tmo:
 			return finish(nil, errUnavailable)
 		}
 	case OutNotFound:
@@ -376,6 +389,30 @@ func (v *Svc) request(ctx context.Context, name string, cond bool, old uint32) (
 		return finish(nil, api.ErrValueNotChanged)
 	}
 	return finish(&api.SecretValue{Value: append([]byte{}, val...), Version: api.SecretVersion(ver)}, nil)
+}
+
+// quietRequest answers at once without touching the kernel (free-running
+// race-detector runs: harness mutexes would add happens-before edges).
+func (v *Svc) quietRequest(ctx context.Context, name string, cond bool, old uint32) (*api.SecretValue, error) {
+	if err := ctx.Err(); err != nil {
+		return nil, err
+	}
+	v.mu.Lock()
+	s := v.secrets[name]
+	if s == nil {
+		v.mu.Unlock()
+		return nil, api.ErrNotFound
+	}
+	v.cnt[name]++
+	if v.cnt[name]%3 == 0 {
+		v.bumpLocked(name)
+	}
+	ver, val := s.active, s.versions[s.active]
+	v.mu.Unlock()
+	if cond && old != 0 && ver == old {
+		return nil, api.ErrValueNotChanged
+	}
+	return &api.SecretValue{Value: append([]byte{}, val...), Version: api.SecretVersion(ver)}, nil
 }
 
 // Get implements setec.StoreClient.
